@@ -66,6 +66,7 @@ class Job:
         self.bounds = {}
         self.solver_s = 0.0
         self.timeout = 120 if tier == "quick" else 600
+        self.solve_defaults = {}      # per-job defaults for lower.solve (e.g. elim=True)
 
     # ---- bookkeeping
     def encoded(self, module, *qualnames):
@@ -120,7 +121,9 @@ class Job:
             return "skipped"
         while True:
             try:
-                r = LW.solve(list(conds) + extra, timeout_s=timeout, **solve_kw)
+                kw = dict(self.solve_defaults)
+                kw.update(solve_kw)
+                r = LW.solve(list(conds) + extra, timeout_s=timeout, **kw)
             except T.Unsupported as ex:
                 self.errors.append(f"{name}: unsupported: {ex}")
                 self.record(name, "error", 0.0, bound, str(ex))
